@@ -119,7 +119,7 @@ def records_contract(rl, out):
     n = rl.t
     same = same_keys(rl)
     return [Implies(n == 0, no_columns(out)),
-            Implies(And(n >= 1, same), And(out.dom == Select(rl.doms, 0),
+            Implies(And(n >= 1, same), And(ForAll([k], Select(out.dom, k) == Select(Select(rl.doms, 0), k)),
                                            ForAll([k], Implies(Select(out.dom, k), out.clen[k] == n)),
                                            ForAll([k, j], Implies(And(Select(out.dom, k), 0 <= j, j < n), out.carr[k][j] == Select(Select(rl.vals, j), k))))),
             Implies(And(n >= 1, Not(same)), And(
@@ -197,9 +197,19 @@ class Rows:
     def pre_call(self, ex, st, e):
         # zip(*self.values()): the transposition of the columns
         if isinstance(e.func, ast.Name) and e.func.id == 'zip' and len(e.args) == 1 and isinstance(e.args[0], ast.Starred) and not e.keywords:
-            v = ex.eval(st, e.args[0].value)
+            probe = st.fork()
+            try:
+                v = ex.eval(probe, e.args[0].value)
+            except OutOfSubset:
+                return NotImplemented
+            if v.kind == 'lazylist':
+                # zip(*[list_0, list_1, ...]): tuple i holds the i-th element of every list; as many tuples as the shortest list has elements
+                v = ex.eval(st, e.args[0].value)
+                ex.use('axiom:zip(*lists) has min(len) tuples (none for no list), the i-th holding the i-th element of every list in order')
+                return SV('transposed', None, outer=v)
             if v.kind != 'tvalues':
                 return NotImplemented
+            v = ex.eval(st, e.args[0].value)
             t = v.f['of']
             ex.use('axiom:zip(*d.values()) has min(column lengths) tuples (none for no column), the j-th holding the j-th entry of every column in the order of d.values()')
             r = fresh_int('ziplen')
@@ -216,6 +226,8 @@ class Rows:
             if a.kind == 'tkeys' and b.kind == 'tvrow' and a.f['of'] is b.f['of'] and not probe.pending:
                 ex.use('axiom:d.keys() and d.values() enumerate in one order, so zip(d.keys(), j-th tuple of zip(*d.values())) pairs every key k with d[k][j]')
                 return SV('kvzip', None, row=row_of(b.f['of'], b.f['index']))
+            if a.kind == 'ktuple' and b.kind == 'colseq' and not probe.pending:
+                return SV('kczip', None, keys=a, cols=b)
         return NotImplemented
 
     def method(self, ex, st, e, recv, mname, args, kwargs):
@@ -311,6 +323,13 @@ class Rows:
         return NotImplemented
 
     def subscript(self, ex, st, e, recv, idx):
+        if recv.kind == 'rowlist' and idx.kind == 'int':
+            i = idx.t
+            si = simplify(i)
+            if z3.is_int_value(si) and si.as_long() < 0:
+                i = recv.t + i
+            ex.raise_if(st, Not(And(0 <= i, i < recv.t)), 'IndexError')
+            return rl_at(recv, i)
         if recv.kind == 'rowmap' and idx.kind in ('key', 'str'):
             k = idx.t if idx.kind == 'key' else key_of(idx.lit)
             ex.raise_if(st, Not(Select(recv.dom, k)), 'KeyError')
@@ -329,5 +348,433 @@ class Rows:
 
     def is_none(self, ex, st, v):
         if v.kind in ('rowlist', 'rowmap', 'colmap', 'cls', 'tkeys', 'tvalues'):
+            return BoolVal(False)
+        return NotImplemented
+
+
+# ================================================================================================ dict-of-columns values and the constructor
+from . import theories as _th
+_th.TYPE_KINDS['dict'] = tuple(sorted(set(_th.TYPE_KINDS.get('dict', ())) | {'colmap', 'rowmap', 'table'}))      # Dict / dictable are dict subclasses
+_th.TYPE_KINDS['list'] = tuple(sorted(set(_th.TYPE_KINDS.get('list', ())) | {'rowlist'}))
+_th.TYPE_KINDS.setdefault('Path', ())
+_th.TYPE_KINDS.setdefault('pd.io.excel.ExcelFile', ())
+
+
+def colmap(dom, clen, carr, **f):
+    return SV('colmap', None, dom=dom, clen=clen, carr=carr, **f)
+
+
+def empty_colmap():
+    return colmap(K(Key, False), K(Key, IntVal(0)), Array(fresh_name('nocol'), Key, ArraySort(IntSort(), Val)), empty=True)
+
+
+def equally_long(cm):
+    """all columns of the mapping have one length (the precondition under which the constructor stores them as they are)"""
+    k1, k2 = Const('k1!el', Key), Const('k2!el', Key)
+    return ForAll([k1, k2], Implies(And(Select(cm.dom, k1), Select(cm.dom, k2)), And(Select(cm.clen, k1) == Select(cm.clen, k2), Select(cm.clen, k1) >= 0)))
+
+
+def same_columns(a, b):
+    """two column maps / tables hold the same columns"""
+    k = Const('k!sc', Key)
+    return ForAll([k], And(Select(a.dom, k) == Select(b.dom, k),
+                           Implies(Select(a.dom, k), And(Select(a.clen, k) == Select(b.clen, k), Select(a.carr, k) == Select(b.carr, k)))))
+
+
+def _mark():
+    """a time stamp of the fresh-name counter: constants named after it were created later"""
+    return int(fresh_name('mark').rsplit('!', 1)[1])
+
+
+def _consts_of(exprs):
+    seen, out, stack = set(), {}, list(exprs)
+    while stack:
+        x = stack.pop()
+        i = x.get_id()
+        if i in seen:
+            continue
+        seen.add(i)
+        if z3.is_quantifier(x):
+            stack.append(x.body())
+        elif z3.is_app(x):
+            if x.num_args() == 0 and x.decl().kind() == z3.Z3_OP_UNINTERPRETED:
+                out[i] = x
+            stack.extend(x.children())
+    return list(out.values())
+
+
+def generalise(ex, kv, mark, nfacts0, terms):
+    """`terms` (and the axiom instances ex.facts[nfacts0:]) were produced by evaluating an expression for one arbitrary key kv.  Constants
+    created during that evaluation (fresh names after `mark`) depend on the key: they are replaced by applications f(kv) of fresh functions,
+    and the axiom instances are re-stated for every key.  Returns the rewritten terms."""
+    new = ex.facts[nfacts0:]
+
+    def fresh(c):
+        nm = c.decl().name()
+        if z3.eq(c, kv) or '!' not in nm:
+            return False
+        tail = nm.rsplit('!', 1)[1]
+        return tail.isdigit() and int(tail) > mark
+    cs = [c for c in _consts_of(list(new) + list(terms)) if fresh(c)]
+    if not cs and not new:
+        return list(terms)
+    sub = [(c, Function(fresh_name(c.decl().name().split('!')[0] + '_of'), Key, c.sort())(kv)) for c in cs]
+    for f in new:
+        ex._fact_ids.discard(f.get_id())
+    del ex.facts[nfacts0:]
+    for f in new:
+        g = z3.substitute(f, *sub) if sub else f
+        ex.fact(ForAll([kv], g) if any(z3.eq(c, kv) for c in _consts_of([g])) else g)
+    return [z3.substitute(t, *sub) if sub else t for t in terms]
+
+
+def lazy_to_list(ex, st, lz):
+    """a map-form comprehension value (n, at) with opaque elements as a th_lists list"""
+    j = Int(fresh_name('j!l2l'))
+    sub = st.fork()
+    v = lz.at(sub, j)
+    if v.kind == 'none':
+        term = NONEV
+    elif v.kind == 'val':
+        term = v.t
+    else:
+        raise OutOfSubset('list of %s as a column' % v.kind)
+    return SV('list', lz.n, ety=VAL, arrs=[Lambda([j], term)])
+
+
+class Init:
+    """plain dicts of columns (`colmap`), the keyword mapping, and the builtins dictable.__init__ / _data_columns_as_dict / dict_concat use.
+    Column names are strings (path precondition: is_int(key) is False for a column name)."""
+
+    def __init__(self, dict_concat='contract'):
+        self.dict_concat = dict_concat
+
+    def expr(self, ex, st, e):
+        if isinstance(e, ast.Dict) and not e.keys:
+            return empty_colmap()
+        return NotImplemented
+
+    # ---- methods
+    def method(self, ex, st, e, recv, mname, args, kwargs):
+        if recv.kind == 'kwargs':
+            if recv.f.get('items'):
+                raise OutOfSubset('constructor with keyword columns')
+            recv = empty_colmap()
+        if recv.kind == 'colmap':
+            if mname == 'items' and not args:
+                return SV('cmitems', None, of=recv)
+            if mname == 'values' and not args:
+                return SV('tvalues', None, of=recv)
+            if mname == 'keys' and not args:
+                return SV('tkeys', None, of=recv)
+            if mname == 'update' and len(args) == 1 and args[0].kind == 'colmap':
+                a, b = recv, args[0]
+                if b.f.get('empty'):
+                    new = a
+                elif a.f.get('empty'):
+                    new = b
+                else:
+                    k = Const('k!upd', Key)
+                    ex.use('axiom:d.update(e) stores every item of e and keeps the other items of d')
+                    new = colmap(Lambda([k], Or(Select(a.dom, k), Select(b.dom, k))), Lambda([k], If(Select(b.dom, k), Select(b.clen, k), Select(a.clen, k))),
+                                 Lambda([k], If(Select(b.dom, k), Select(b.carr, k), Select(a.carr, k))))
+                if not isinstance(e.func.value, ast.Name):
+                    raise OutOfSubset('update through %s' % ast.unparse(e.func.value)[:40])
+                st.env[e.func.value.id] = new
+                return NONE
+            if mname == 'get' and len(args) == 2 and args[0].kind == 'key' and args[1].kind == 'list':
+                d = as_list_sv(args[1], VAL)
+                c = Select(recv.dom, args[0].t)
+                col = column(recv, args[0].t)
+                return SV('list', If(c, col.t, d.t), ety=VAL, arrs=[If(c, col.arrs[0], d.arrs[0])])
+        if recv.kind == 'rowmap':
+            if mname == 'items' and not args:
+                return SV('rmitems', None, of=recv)
+            if mname == 'get' and len(args) == 1 and args[0].kind == 'key':
+                ex.use('axiom:d.get(k) is d[k] for a key of d and None otherwise')
+                return V(If(Select(recv.dom, args[0].t), Select(recv.vals, args[0].t), NONEV))
+        if recv.kind == 'super' and mname == '__init__' and len(args) == 1 and args[0].kind == 'colmap':
+            t = recv.f['of']
+            if not t.f.get('fresh') or not recv.f.get('name'):
+                raise OutOfSubset('dict.__init__ on an object that is not freshly created')
+            ex.use('axiom:dict.__init__(mapping) on a new dict stores exactly the items of the mapping')
+            cm = args[0]
+            st.env[recv.f['name']] = SV('table', None, dom=cm.dom, clen=cm.clen, carr=cm.carr, cls=t.f.get('cls'))
+            return NONE
+        return NotImplemented
+
+    # ---- calls
+    def call(self, ex, st, e, fname, args, kwargs):
+        a0 = args[0] if args else None
+        if fname == 'dict' and len(args) == 1 and a0.kind in ('colmap', 'table'):
+            ex.use('axiom:dict(mapping) is a new dict with the same items')
+            return colmap(a0.dom, a0.clen, a0.carr, **({'empty': True} if a0.f.get('empty') else {}))
+        if fname == 'len' and len(args) == 1 and a0.kind in ('colmap', 'kwargs'):
+            if a0.kind == 'kwargs' or a0.f.get('empty'):
+                if a0.kind == 'kwargs' and a0.f.get('items'):
+                    raise OutOfSubset('constructor with keyword columns')
+                return I(0)
+            c = fresh_int('nkeys')
+            ex.fact(And(c >= 0, (c == 0) == no_columns(a0)))
+            ex.use('axiom:len(d) == 0 iff d has no key')
+            return I(c)
+        if fname == 'is_strs' and len(args) == 1 and a0.kind in ('none', 'tkeys', 'colmap', 'rowlist', 'table'):
+            if a0.kind == 'tkeys':
+                ex.use('path precondition:column names are strings')
+                return B(Not(no_columns(a0.f['of'])))
+            return B(False)
+        if fname in ('is_str', 'is_df', 'is_tree', 'is_tuple') and len(args) == 1 and a0.kind in ('none', 'tkeys', 'colmap', 'rowlist', 'table', 'rowmap', 'list'):
+            return B(False)
+        if fname == 'is_int' and len(args) == 1 and a0.kind == 'key':
+            ex.use('path precondition:column names are strings')
+            return B(False)
+        if fname == 'is_dicts' and len(args) == 1 and a0.kind == 'rowlist':
+            ex.use('axiom:is_dicts(list of dicts) holds iff the list is not empty')
+            return B(a0.t > 0)
+        if fname == 'hasattr' and len(args) == 2 and a0.kind in ('rowlist', 'list') and args[1].kind == 'str' and args[1].lit in ('next', 'find'):
+            return B(False)
+        if fname == 'type' and len(args) == 1 and a0.kind in ('rowlist', 'list'):
+            return SV('pytype', None, name='list')
+        if fname == 'str' and len(args) == 1 and a0.kind == 'pytype':
+            return S("<class '%s'>" % a0.f['name'])
+        if fname == 'min' and len(args) == 1 and a0.kind == 'lazylist':
+            ex.use('axiom:min(list of booleans) is True iff all are True; min([]) raises ValueError')
+            ex.raise_if(st, a0.n == 0, 'ValueError')
+            q = Int(fresh_name('q!min'))
+            elt = a0.at(st.fork(), q)
+            if elt.kind != 'bool':
+                raise OutOfSubset('min over a non-boolean comprehension')
+            return B(ForAll([q], Implies(And(0 <= q, q < a0.n), elt.t)))
+        if fname == 'dict_concat' and len(args) == 1 and a0.kind == 'rowlist' and self.dict_concat == 'contract':
+            ex.use('callee contract:dict_concat(records) maps every key of some record to the list of record.get(key), in order (proved in C01 dict_concat.*)')
+            out = fresh_colmap('concat')
+            for f in records_contract(a0, out):
+                ex.fact(f)
+            return out
+        return NotImplemented
+
+    def compare(self, ex, st, e, op, a, b):
+        if op in ('Eq', 'NotEq') and a.kind == 'rowlist' and b.kind == 'list' and b.f.get('ety') is None:
+            return (a.t == 0) if op == 'Eq' else (a.t != 0)
+        return NotImplemented
+
+    # ---- {k: f(k, v) for k, v in d.items()} / {k: f(k) for k in keys [if c(k)]}
+    def dictcomp(self, ex, st, e):
+        if len(e.generators) != 1 or e.generators[0].is_async:
+            return NotImplemented
+        g = e.generators[0]
+        probe = st.fork()
+        try:
+            it = ex.eval(probe, g.iter)
+        except OutOfSubset:
+            return NotImplemented
+        kv = Const(fresh_name('k!dc'), Key)
+        if it.kind in ('cmitems', 'titems') and isinstance(g.target, ast.Tuple) and len(g.target.elts) == 2:
+            src = it.f['of']
+            dom, bind = src.dom, T([KEY(kv), column(src, kv)])
+            if src.f.get('empty'):
+                return empty_colmap()
+        elif it.kind == 'rmitems' and isinstance(g.target, ast.Tuple) and len(g.target.elts) == 2:
+            src = it.f['of']
+            dom, bind = src.dom, T([KEY(kv), V(Select(src.vals, kv))])
+        elif it.kind == 'tkeys' and isinstance(g.target, ast.Name):
+            dom, bind = it.f['of'].dom, KEY(kv)
+        elif it.kind == 'kset' and isinstance(g.target, ast.Name):
+            dom, bind = it.f['dom'], KEY(kv)
+        else:
+            return NotImplemented
+        st.pending.extend(probe.pending)
+        st.pc = probe.pc
+        sub = st.fork(); sub.pending = []
+        sub.pc.append(Select(dom, kv))
+        base = len(sub.pc)
+        mark, nfacts0 = _mark(), len(ex.facts)
+        ex.assign(sub, g.target, bind, None)
+        keep = []
+        for c in g.ifs:
+            t_ = ex.truth(sub, ex.eval(sub, c))
+            keep.append(t_)
+            sub.pc.append(t_)
+        knew = ex.eval(sub, e.key)
+        vnew = ex.eval(sub, e.value)
+        if knew.kind != 'key' or not z3.eq(simplify(knew.t), kv):
+            raise OutOfSubset('dict comprehension renames its keys')
+        if vnew.kind == 'lazylist':
+            vnew = lazy_to_list(ex, sub, vnew)
+        if vnew.kind == 'list':
+            vl = as_list_sv(vnew, VAL)
+            if vl.ety != VAL:
+                raise OutOfSubset('column of %s elements' % vl.ety)
+            terms = [vl.t, vl.arrs[0]]
+        elif vnew.kind in ('val', 'none'):
+            terms = [vnew.t if vnew.kind == 'val' else NONEV]
+        else:
+            raise OutOfSubset('dict comprehension with %s values' % vnew.kind)
+        conds = [(And(*o.st.pc[base:]) if len(o.st.pc) > base else BoolVal(True), o.val) for o in sub.pending]
+        # what was evaluated is the element for one arbitrary key kv: constants made on the way are functions of the key
+        out = generalise(ex, kv, mark, nfacts0, terms + keep + [c_ for c_, _ in conds])
+        terms, keep, cds = out[:len(terms)], out[len(terms):len(terms) + len(keep)], out[len(terms) + len(keep):]
+        for cond, (_, exc) in zip(cds, conds):      # the comprehension raises iff the element for some key raises
+            k2 = Const(fresh_name('k!dcr'), Key)
+            ex.raise_if(st, Exists([k2], And(Select(dom, k2), z3.substitute(cond, (kv, k2)))), exc)
+        ex.use('axiom:{k: f(k, v) for k, v in d.items() if c(k, v)} has the keys of d that satisfy c and the values f(k, d[k]); it raises iff some element raises')
+        ndom = Lambda([kv], And(Select(dom, kv), *keep)) if keep else dom
+        if len(terms) == 2:
+            return colmap(ndom, Lambda([kv], terms[0]), Lambda([kv], terms[1]))
+        return rowmap(ndom, Lambda([kv], terms[0]))
+
+    def merge(self, ex, st, cond, a, b):
+        if a.kind == 'colmap' and b.kind == 'colmap':
+            return colmap(If(cond, a.dom, b.dom), If(cond, a.clen, b.clen), If(cond, a.carr, b.carr))
+        return NotImplemented
+
+    def is_none(self, ex, st, v):
+        if v.kind in ('colmap', 'kwargs', 'cmitems', 'rmitems', 'kset', 'pytype'):
+            return BoolVal(False)
+        return NotImplemented
+
+    def truth(self, ex, st, v):
+        if v.kind == 'colmap':
+            return BoolVal(False) if v.f.get('empty') else Not(no_columns(v))
+        return NotImplemented
+
+
+# ================================================================================================ the builtins dict_concat chains
+# sorted(keys): position <-> key.  For a key set d (an array Key -> Bool): NK(d) keys, SK(d, i) the i-th in sorted order, SP(d, k) the position of k.
+NK = Function('n_keys', KB, IntSort())
+SK = Function('sorted_key', KB, IntSort(), Key)
+SP = Function('sorted_pos', KB, Key, IntSort())
+
+
+def sorted_keys_axioms():
+    d = Const('d!sk', KB)
+    k = Const('k!sk', Key)
+    i = Int('i!sk')
+    return [ForAll([d], NK(d) >= 0, patterns=[NK(d)]),
+            ForAll([d, k], Implies(Select(d, k), And(0 <= SP(d, k), SP(d, k) < NK(d), SK(d, SP(d, k)) == k)), patterns=[SP(d, k)]),
+            ForAll([d, i], Implies(And(0 <= i, i < NK(d)), And(Select(d, SK(d, i)), SP(d, SK(d, i)) == i)), patterns=[SK(d, i)])]
+
+
+class Concat:
+    """sorted / tuple / set / list on key sets, sorted(d.items()), zip(*lists), map(list, .), dict(zip(keys, columns)), reduce of a union step:
+    the builtins on the shapes dict_concat applies them to.  Keys of one dict are distinct, so sorting items never compares values."""
+
+    def name(self, ex, st, ident):
+        if ident == 'list' and ident not in st.env:
+            return SV('builtin', None, name='list')
+        return NotImplemented
+
+    def _keyset_facts(self, ex):
+        ex.use('axiom:sorted(keys of a dict) enumerates exactly these keys, each once, in an order that depends on the key set only; '
+               'tuple() / list() keep elements and order; sorted(d.items()) orders the items by key (keys are distinct)')
+        for f in sorted_keys_axioms():
+            ex.fact(f)
+
+    def call(self, ex, st, e, fname, args, kwargs):
+        a0 = args[0] if args else None
+        if fname == 'sorted' and len(args) == 1 and not kwargs and a0.kind == 'rkeys':
+            self._keyset_facts(ex)
+            return SV('ktuple', None, dom=a0.f['dom'])
+        if fname == 'sorted' and len(args) == 1 and not kwargs and a0.kind == 'rmitems':
+            self._keyset_facts(ex)
+            return SV('sitems', None, row=a0.f['of'])
+        if fname == 'tuple' and len(args) == 1 and a0.kind == 'ktuple':
+            return a0
+        if fname == 'set' and not args:
+            return SV('kset', None, dom=K(Key, False))
+        if fname == 'set' and len(args) == 1 and a0.kind == 'ktuple':
+            return SV('kset', None, dom=a0.f['dom'])
+        if fname == 'set' and len(args) == 1 and a0.kind == 'lazylist':
+            el = a0.at(st.fork(), Int('j!probe'))
+            if el.kind != 'ktuple':
+                return NotImplemented
+            return SV('ktset', None, src=a0)
+        if fname == 'list' and len(args) == 1 and a0.kind == 'ktset':
+            src = a0.f['src']
+            D = lambda j: src.at(st.fork(), j).f['dom']
+            c = fresh_int('ndistinct')
+            j = Int('j!ds')
+            ex.use('axiom:list(set(xs)) holds every distinct element of xs once: it is empty iff xs is, and has one element iff xs is not empty and all '
+                   'elements of xs are equal; two tuples of sorted keys are equal iff the key sets are')
+            same = ForAll([j], Implies(And(0 <= j, j < src.n), D(j) == D(IntVal(0))))
+            ex.fact(And(c >= 0, c <= src.n, (c == 0) == (src.n <= 0), (c == 1) == And(src.n >= 1, same)))
+            return SV('ktlist', None, n=c, src=src, D=D)
+        if fname == 'len' and len(args) == 1 and a0.kind == 'ktlist':
+            return I(a0.f['n'])
+        if fname == 'map' and len(args) == 2 and a0.kind == 'builtin' and a0.f['name'] == 'list' and args[1].kind == 'transposed':
+            ex.use('axiom:map(list, tuples) yields each tuple as a list')
+            return SV('colseq', None, outer=args[1].f['outer'])
+        if fname == 'dict' and len(args) == 1 and a0.kind == 'kczip':
+            return self.dict_of_zip(ex, st, a0.f['keys'], a0.f['cols'].f['outer'])
+        if fname == 'reduce' and len(args) == 3 and a0.kind == 'func' and args[1].kind == 'ktlist' and args[2].kind == 'kset':
+            return self.reduce_union(ex, st, a0, args[1], args[2])
+        return NotImplemented
+
+    def dict_of_zip(self, ex, st, keys, outer):
+        """dict(zip(keys, columns)) where column i is the list of the i-th elements of the lists of `outer`"""
+        ex.use('axiom:dict(zip(ks, vs)) maps ks[i] to vs[i] for i < min(len(ks), len(vs)) (distinct keys)')
+        dom0 = keys.f['dom']
+        n = outer.n
+        L = fresh_int('ncolumns')
+        j = Int(fresh_name('j!dz'))
+        i = Int(fresh_name('i!dz'))
+        k = Const(fresh_name('k!dz'), Key)
+        sub = st.fork()
+        inner = outer.at(sub, j)
+        if inner.kind != 'lazylist':
+            raise OutOfSubset('zip(*xs) over elements of kind %s' % inner.kind)
+        cell = inner.at(sub, i)
+        if cell.kind not in ('val', 'none'):
+            raise OutOfSubset('cells of kind %s' % cell.kind)
+        cterm = cell.t if cell.kind == 'val' else NONEV
+        ex.fact(And(L >= 0, ForAll([j], Implies(And(0 <= j, j < n), L <= inner.n)),
+                    Implies(n >= 1, Exists([j], And(0 <= j, j < n, L == inner.n))), Implies(n <= 0, L == 0)))
+        pos = SP(dom0, k)
+        return colmap(Lambda([k], And(Select(dom0, k), pos < L)), K(Key, n) if not z3.is_expr(n) else Lambda([k], n),
+                      Lambda([k], Lambda([j], z3.substitute(cterm, (i, pos)))))
+
+    def reduce_union(self, ex, st, fn, lst, init):
+        """reduce(lambda res, keys: res | set(keys), tuples, set()): the step is executed once on an arbitrary set and tuple; if it adds exactly the
+        keys of the tuple, the fold is the union of the key sets of all tuples (induction over the list; the elements of list(set(xs)) are those of xs)"""
+        S0, D0 = Const(fresh_name('S!red'), KB), Const(fresh_name('D!red'), KB)
+        r = ex.call_func(st, fn, [SV('kset', None, dom=S0), SV('ktuple', None, dom=D0)], {})
+        if r.kind != 'kset':
+            raise OutOfSubset('reduce step returns %s' % r.kind)
+        k = Const('k!red', Key)
+        ex.oblige(st, 'reduce.step_adds_exactly_the_keys_of_the_tuple', ForAll([k], Select(r.f['dom'], k) == Or(Select(S0, k), Select(D0, k))), kind='lemma')
+        ex.use('axiom:reduce(f, xs, init) folds f over xs from the left; the union over list(set(xs)) is the union over xs (induction over the list is trusted)')
+        j = Int(fresh_name('j!red'))
+        src, D = lst.f['src'], lst.f['D']
+        return SV('kset', None, dom=Lambda([k], Or(Select(init.f['dom'], k), Exists([j], And(0 <= j, j < src.n, Select(D(j), k))))))
+
+    def binop(self, ex, st, e, op, a, b):
+        if op == 'BitOr' and a.kind == 'kset' and b.kind == 'kset':
+            k = Const('k!or', Key)
+            return SV('kset', None, dom=Lambda([k], Or(Select(a.f['dom'], k), Select(b.f['dom'], k))))
+        return NotImplemented
+
+    def subscript(self, ex, st, e, recv, idx):
+        if recv.kind == 'ktlist' and idx.kind == 'int':
+            s = simplify(idx.t)
+            if not (z3.is_int_value(s) and s.as_long() == 0):
+                raise OutOfSubset('element %s of list(set(...))' % s)
+            ex.raise_if(st, recv.f['n'] <= 0, 'IndexError')
+            d = Const(fresh_name('keys0'), KB)
+            j = Int(fresh_name('j!k0'))
+            src, D = recv.f['src'], recv.f['D']
+            ex.fact(Implies(recv.f['n'] >= 1, Exists([j], And(0 <= j, j < src.n, d == D(j)))))       # facts are global: conditional on the list having an element
+            ex.fact(Implies(recv.f['n'] == 1, d == D(IntVal(0))))
+            return SV('ktuple', None, dom=d)
+        return NotImplemented
+
+    def iterate(self, ex, st, it):
+        if it.kind == 'sitems':
+            row = it.f['row']
+            d = row.dom
+            return NK(d), (lambda st2, i: T([KEY(SK(d, i)), V(Select(row.vals, SK(d, i)))]))
+        return NotImplemented
+
+    def is_none(self, ex, st, v):
+        if v.kind in ('ktuple', 'ktset', 'ktlist', 'sitems', 'transposed', 'colseq', 'kczip', 'builtin', 'rkeys'):
             return BoolVal(False)
         return NotImplemented
